@@ -154,6 +154,9 @@ def _ops(G, prop, gf, argsets, constraint, selpath):
     elif prop == "C02":
         t2, w = G.seed(gf.generate)(k, constraint, *a0)
         out.append({**_obs(t2), "w": w})
+        # a non-empty constraint that does NOT mention the keyword sub-call's address (only the last site "o")
+        t2b, wb = G.seed(gf.generate)(k, {"o": tr.get_choices()["o"] * 0.5 + 0.25}, *a1)
+        out.append({**_obs(t2b), "w": wb})
         t3, w3 = G.seed(gf.generate)(k, tr.get_choices(), *a1)
         out.append({**_obs(t3), "w": w3})
     elif prop == "C03":
